@@ -434,9 +434,11 @@ def stale_call(f, *args, near=False):
   is not the value) returns the earlier answer here; a correct implementation cannot tell the difference.  Exceptions of the decoy
   call are ignored."""
   import numpy as np
-  bufs = [np.array(a, dtype=float) if isinstance(a, np.ndarray) else a for a in args]
+  bufs = [np.array(a, dtype=(a.dtype if a.dtype.kind in 'iu' else float)) if isinstance(a, np.ndarray) else a for a in args]
   for b, a in zip(bufs, args):
-    if isinstance(b, np.ndarray):
+    if isinstance(b, np.ndarray) and b.dtype.kind in 'iu':
+      b[...] = np.roll(a.reshape(-1), 1).reshape(a.shape) + 1        # integer buffers stay integer buffers
+    elif isinstance(b, np.ndarray):
       # far decoy: other values altogether; near decoy: within 1e-6 relative (a tolerance-based cache key must not mistake it)
       b[...] = (a * (1 + 2.0 ** -20) + 2.0 ** -30) if near else (np.roll(a.reshape(-1), 1).reshape(a.shape) * 0.75 + 0.125)
   try:
